@@ -49,6 +49,8 @@ UNIT = dict(
         dict(key="StagesBuilder::add_barrier", file=STAGE, kind="fn", name="add_barrier", owner=SB, emit_owner="impl StagesBuilder"),
         dict(key="StagesBuilder::add_stage", file=STAGE, kind="fn", name="add_stage", owner=SB, emit_owner="impl StagesBuilder"),
         dict(key="StagesBuilder::add_group", file=STAGE, kind="fn", name="add_group", owner=SB, emit_owner="impl StagesBuilder"),
+        dict(key="StagesBuilder::fetch_all_reads", file=STAGE, kind="fn", name="fetch_all_reads", owner=SB, emit_owner="impl StagesBuilder", sig_prefix=NOISO),
+        dict(key="StagesBuilder::fetch_all_writes", file=STAGE, kind="fn", name="fetch_all_writes", owner=SB, emit_owner="impl StagesBuilder", sig_prefix=NOISO),
         dict(key="StagesBuilder::insert", file=STAGE, kind="fn", name="insert", owner=SB, emit_owner="impl StagesBuilder",
              sig_rules=[(r"\binsert<T>", "insert<T: System>")], body_rules=[(r"Box::new\(system\)", "vx_boxed(system)")]),
     ],
